@@ -67,6 +67,13 @@ func c18Base() *spec.Program {
 	m("RootJ", nil, f("JStr", 1, spec.KString), f("JOne", 2, spec.KMessage, ref("Lone1")), f("JList", 3, spec.KMessage, ref("Lone2"), list),
 		f("JMap", 4, spec.KMessage, ref("Lone3"), mp))
 	m("RootLone", nil)
+	// messages of another proto / Go package, reached from two selected types
+	p.Foreign = []spec.ForeignFile{{File: "ext/v1/ext.proto", ProtoPackage: "ext.v1", GoPackage: "example.com/ext/v1", Messages: []spec.Message{
+		{Name: "FarInner", Fields: []spec.Field{f("FiStr", 1, spec.KString)}},
+		{Name: "Far", Fields: []spec.Field{f("FarStr", 1, spec.KString), f("FarIn", 2, spec.KMessage, ref("FarInner"))}},
+	}}}
+	m("RootK", nil, f("KStr", 1, spec.KString), f("KFar", 2, spec.KMessage, ref("ext.v1.Far")))
+	m("RootL", nil, f("LStr", 1, spec.KString), f("LFars", 3, spec.KMessage, ref("ext.v1.Far"), list))
 	m("RootBExt", nil, f("BxStr", 1, spec.KString), f("BxInner", 2, spec.KMessage, ref("Inner")))
 	m("RootD2", nil, f("D2Str", 1, spec.KString))
 	// a chain of twelve nested messages (singular, list and map links alternate)
@@ -88,7 +95,7 @@ func c18Base() *spec.Program {
 	m("Clean", nil, f("Name", 1, spec.KString), f("Count", 2, spec.KInt64), f("Inner", 3, spec.KMessage, ref("Inner"), nn))
 	m("Unselected", nil, f("UStr", 1, spec.KString))
 	p.Config = spec.Config{
-		Types:          []string{"RootAExt", "RootA", "RootF", "RootB", "RootC", "RootD", "RootE", "RootG", "RootH", "RootI", "RootJ", "RootLone", "RootDeep", "RootBExt", "RootD2", "Clean"},
+		Types:          []string{"RootAExt", "RootA", "RootF", "RootB", "RootC", "RootD", "RootE", "RootG", "RootH", "RootI", "RootJ", "RootLone", "RootK", "RootL", "RootDeep", "RootBExt", "RootD2", "Clean"},
 		ComputedFields: []string{"Clean.Count"},
 		// configured although duration_type is not: a field cast to it has no mapping
 		DurationCustomType: spec.DurationCastName,
@@ -164,6 +171,9 @@ type badPos struct {
 	// lone: the bad field is the only field of its message (once excluded, the message differs from the
 	// field-less message of the twin)
 	lone bool
+	// affected: the roots that reach the message, when the spec's own reachability does not see it (a
+	// message of another package)
+	affected []string
 	// one path-form exclusion key per occurrence (README: Root.Field.Sub), by root
 	pathKeys func(field string) []string
 }
@@ -191,6 +201,12 @@ var badPositions = []badPos{
 	{name: "only-field-of-list-element", lone: true, msg: "Lone2", pathKeys: func(f string) []string { return []string{"RootJ.JList." + f} }},
 	{name: "only-field-of-map-value", lone: true, msg: "Lone3", pathKeys: func(f string) []string { return []string{"RootJ.JMap." + f} }},
 	{name: "only-field-of-selected-type", lone: true, msg: "RootLone", pathKeys: func(f string) []string { return []string{"RootLone." + f} }},
+	{name: "message-of-another-package", msg: "ext.v1.Far", affected: []string{"RootK", "RootL"}, pathKeys: func(f string) []string {
+		return []string{"RootK.KFar." + f, "RootL.LFars." + f}
+	}},
+	{name: "nested-in-message-of-another-package", msg: "ext.v1.FarInner", first: true, affected: []string{"RootK", "RootL"}, pathKeys: func(f string) []string {
+		return []string{"RootK.KFar.FarIn." + f, "RootL.LFars.FarIn." + f}
+	}},
 	{name: "embedded", msg: "EmbX", pathKeys: nil},
 	// README: options below an embedded field are keyed by the name of the embedding message
 	{name: "embedded-in-element", msg: "EmbY", pathKeys: func(f string) []string { return []string{"Holder." + f} }},
@@ -199,6 +215,15 @@ var badPositions = []badPos{
 func withBad(base *spec.Program, pos badPos, k badKind) (*spec.Program, string) {
 	p := cloneProgram(base)
 	m := p.Msg(pos.msg)
+	if spec.IsForeignRef(pos.msg) {
+		for fi := range p.Foreign {
+			for mi := range p.Foreign[fi].Messages {
+				if p.Foreign[fi].ProtoPackage+"."+p.Foreign[fi].Messages[mi].Name == pos.msg {
+					m = &p.Foreign[fi].Messages[mi]
+				}
+			}
+		}
+	}
 	var maxNum int32
 	for _, f := range m.Fields {
 		if f.Num > maxNum {
@@ -246,10 +271,16 @@ func C18RealCases(seed uint64, tier string) ([]*Case, map[string]int) {
 				if pos.oneof != "" && (k.field("x", 1).Card != "") {
 					continue // repeated/map fields cannot be oneof members
 				}
+				if spec.IsForeignRef(pos.msg) && k.field("x", 1).Ref != "" {
+					continue // the bad field's own message reference lives in the program's package
+				}
 				b := cloneProgram(base)
 				b.Config.Sort = sortOn
 				p, fname := withBad(b, pos, k)
 				aff := affectedRoots(p, pos.msg)
+				if pos.affected != nil {
+					aff = pos.affected
+				}
 				run := runFrom(p.Config.Render(nil, nil))
 				clause := fmt.Sprintf("unmappable/%s@%s", k.name, pos.name)
 				kinds["unmappable"]++
@@ -262,7 +293,7 @@ func C18RealCases(seed uint64, tier string) ([]*Case, map[string]int) {
 					restoredRoots = aff
 				}
 				pe := cloneProgram(p)
-				pe.Config.ExcludeFields = append(pe.Config.ExcludeFields, pos.msg+"."+fname)
+				pe.Config.ExcludeFields = append(pe.Config.ExcludeFields, pos.msg[strings.LastIndex(pos.msg, ".")+1:]+"."+fname)
 				kinds["excluded/type-key"]++
 				cases = append(cases, &Case{Property: "C18", Clause: "excluded/type-key/" + k.name + "@" + pos.name, Seed: seed, Tier: tier, Program: pe,
 					Ref: refRun(b), Run: runFrom(pe.Config.Render(nil, nil)), Expect: Expect{Kind: "atomic", Roots: p.Config.Types, Restored: restoredRoots}})
